@@ -31,6 +31,9 @@ def std_case(rnd, seed, *, kinds=("gauss", "bimodal", "expedge", "corr"), scenar
         case["eval"] = "vector"
         case.pop("pool", None)
         case["n_total"] = 512
+    if case.get("eval") == "vector" and rnd.random() < 0.3:
+        # the vectorised user model returns the same (re-used) output array on every call, or a read-only view of it
+        case["target"]["vec_out"] = rnd.choice(["buffer", "buffer", "readonly"])
     if rnd.random() < 0.2:
         case["progress"] = True  # the progress-bar code paths (update_stats in every stage and MCMC step) take part
     if case["scenario"] == "crash_resume":
@@ -44,6 +47,11 @@ def std_case(rnd, seed, *, kinds=("gauss", "bimodal", "expedge", "corr"), scenar
         case["save_every"] = rnd.choice([1, 2, 3])
         case["resume_which"] = rnd.choice(["final", "final", "latest"])
         case["resume_n_total"] = rnd.choice([case["n_total"], max(16, case["n_total"] // 2), max(16, case["n_total"] // 4), case["n_total"] * 2])
+    elif case["scenario"] == "rewind":
+        case["save_every"] = rnd.choice([1, 2, 3])
+        case["rewind_to"] = rnd.choice(["first", "middle"])
+        if rnd.random() < 0.3:
+            case["resume_n_total"] = rnd.choice([case["n_total"] * 2, max(32, case["n_total"] // 2)])
     elif case["scenario"] == "load_only":
         case["save_every"] = rnd.choice([1, 2, 3])
         case["load_which"] = rnd.choice(["final", "latest", "first"])
